@@ -156,6 +156,19 @@ def _extra(draw):
     return d
 
 
+EXHAUSTIVE_NOTE = 'linear_interp boundary sweep: every table length 2..40 x 5 origins x 5 widths x float32/float64 x xd at both ends and every node, each -3..+3 ulp (enumerated completely; the other kernel groups are sampled)'
+
+
+def exhaustive(tier, shard, nshards):
+    k = 0
+    for dt in ('f4', 'f8'):
+        for n in range(2, 41):
+            k += 1
+            if k % nshards != shard:
+                continue
+            yield {'g': 'extra', 'd': {'k': 'interp_sweep', 'dt': dt, 'n': n}}
+
+
 def strategy(tier):
     g = _group_for_shard()
     if g == 'extra':
@@ -171,6 +184,8 @@ def nontrivial(desc):
         except Exception:
             return False
     k = d['k']
+    if k == 'interp_sweep':
+        return True
     if k in ('bin_kppi', 'bin_kmu'):
         return d['ekind'] != 'inside' or d['n'] <= 2 or (k == 'bin_kppi' and d['pimax_units'] < d['n'] / 2)
     if k == 'interp':
@@ -193,6 +208,13 @@ def classes(desc):
     if g != 'extra':
         return ['group=' + g]
     return ['group=extra:' + d['k']]
+
+
+_stats = {'interp_probes': 0}
+
+
+def extra_evidence():
+    return dict(_stats)
 
 
 def _bounds(exc_or_sig):
@@ -284,6 +306,25 @@ def _run_extra(d):
             k_ell = np.linspace(0.0, max(kmaxmesh * d['kmax_rel'], 1e-3), n)
             P_ell = np.vstack([y.astype(np.float64) + i for i in range(len(d['poles']))])
             _guard('expand_poles_to_3d', ps.expand_poles_to_3d, k_ell, P_ell, n1d, L, np.array(d['poles'], dtype=np.int64))
+        return None
+    if k == 'interp_sweep':
+        from abacusnbody.analysis import power_spectrum as ps
+
+        dt = np.float32 if d['dt'] == 'f4' else np.float64
+        n = d['n']
+        for a in (0.0, 0.01, 1.0, -3.0, 1e-3):
+            for w in (1.0, 0.37, 10.0, 1e-2, 3.3333333):
+                x = np.linspace(a, a + w, n).astype(dt)
+                y = (np.arange(n) * 1.5 + 2).astype(dt)
+                for node in sorted({0, 1, n // 2, n - 2, n - 1}):
+                    for u in range(-3, 4):
+                        xd = x[node]
+                        for _ in range(abs(u)):
+                            xd = np.nextafter(xd, dt(np.inf) if u > 0 else dt(-np.inf))
+                        got = _guard('linear_interp', ps.linear_interp, dt(xd), x, y)
+                        _stats['interp_probes'] += 1
+                        if not (float(y[0]) - 1e-3 <= float(got) <= float(y[-1]) + 1e-3):
+                            raise Violation('linear_interp-out-of-range', 'n=%d a=%r w=%r node=%d ulp=%d: %r outside [%r,%r]' % (n, a, w, node, u, float(got), float(y[0]), float(y[-1])))
         return None
     if k == 'mesh':
         from abacusnbody.analysis import power_spectrum as ps
